@@ -130,7 +130,10 @@ package mcap
     ensures [chunk-entered-only-from-the-base-source] {C09 C01} l.basereader == old(l.basereader) && (err == nil ==> l.inChunk && !old(l.inChunk))
     call setNoneDecoder#1 assert [served-bytes-are-the-validated-ones] {C07} l.validateChunkCRCs && len(arg0) == uncompressedSize && base(arg0) == base(l.uncompressedChunk) && off(arg0) == off(l.uncompressedChunk)
         && (uncompressedCRC == 0 || crcOfBytes(arg0) == uncompressedCRC)
-    ensures [validated-chunk-is-served-from-the-checked-buffer] {C07} err == nil && l.validateChunkCRCs ==> l.decoders.none != nil && l.reader == iface(l.decoders.none) && pos(l.reader) == 0
+    ensures [validated-chunk-is-served-from-the-checked-buffer] {C07} err == nil && old(l.validateChunkCRCs) ==> l.decoders.none != nil && l.reader == iface(l.decoders.none) && pos(l.reader) == 0
+    call ReadFull#3 label RD
+    call setNoneDecoder#1 assert [validated-buffer-holds-the-whole-decompressed-chunk] {C09 C07 C01} forall(j, 0, len(arg0), arg0[j] == at(RD, streamByte(l.reader, pos(l.reader) + j)))
+    ensures [reading-does-not-change-the-configuration] {C07 C10} l.validateChunkCRCs == old(l.validateChunkCRCs) && l.emitInvalidChunks == old(l.emitInvalidChunks) && l.emitChunks == old(l.emitChunks) && l.computeAttachmentCRCs == old(l.computeAttachmentCRCs) && l.maxRecordSize == old(l.maxRecordSize) && l.maxDecompressedChunkSize == old(l.maxDecompressedChunkSize)
 @*/
 
 /*@ func (*Lexer).Next
@@ -151,6 +154,8 @@ package mcap
     loop 1 backedge [unknown-opcode-skipped-whole] {C11} opcode > 15 && l.inChunk == athead(l.inChunk) ==> l.reader == athead(l.reader) && pos(l.reader) == athead(pos(l.reader)) + 9 + recordLen
     loop 1 backedge [end-of-chunk-returns-to-the-base-source] {C09 C01} athead(l.inChunk) && !l.inChunk ==> l.reader == l.basereader
     ensures [invalid-chunk-token-only-for-a-crc-error] {C07} r0 == TokenInvalidChunk ==> isCRC(r2) && l.emitInvalidChunks
+    ensures [reading-does-not-change-the-configuration] {C07 C10} l.validateChunkCRCs == old(l.validateChunkCRCs) && l.emitInvalidChunks == old(l.emitInvalidChunks) && l.emitChunks == old(l.emitChunks) && l.computeAttachmentCRCs == old(l.computeAttachmentCRCs) && l.maxRecordSize == old(l.maxRecordSize) && l.maxDecompressedChunkSize == old(l.maxDecompressedChunkSize)
+    loop 1 invariant [reading-does-not-change-the-configuration] {C07 C10} l.validateChunkCRCs == old(l.validateChunkCRCs) && l.emitInvalidChunks == old(l.emitInvalidChunks) && l.emitChunks == old(l.emitChunks) && l.computeAttachmentCRCs == old(l.computeAttachmentCRCs) && l.maxRecordSize == old(l.maxRecordSize) && l.maxDecompressedChunkSize == old(l.maxDecompressedChunkSize)
 @*/
 
 /*@ func (*Lexer).Close
@@ -422,6 +427,18 @@ package mcap
     requires it != nil && 0 <= i && i < len(it.chunkIndexes) && 0 <= j && j < len(it.chunkIndexes) && it.chunkIndexes[i] != nil && it.chunkIndexes[j] != nil
     ensures [reverse-key-then-offset] {C03} result == ite(it.chunkIndexes[i].MessageEndTime == it.chunkIndexes[j].MessageEndTime, it.chunkIndexes[i].ChunkStartOffset > it.chunkIndexes[j].ChunkStartOffset, it.chunkIndexes[i].MessageEndTime > it.chunkIndexes[j].MessageEndTime)
 @*/
+/*@ func (*indexedMessageIterator).chunksWithSelectedChannels
+    safety C10
+    requires it != nil && forall(k, 0, len(chunkIndexes), chunkIndexes[k] != nil)
+    touches nothing
+    ensures forall(k, 0, len(result), result[k] != nil) && len(result) <= len(chunkIndexes)
+    loop 1 invariant [filtering-in-place-keeps-entries-valid] {C04 C12} len(selected) <= iter
+        && forall(k, 0, len(selected), selected[k] != nil) && forall(k, 0, len(chunkIndexes), chunkIndexes[k] != nil)
+    loop 1 backedge [chunk-without-message-index-offsets-is-never-pruned-by-channel] {C04 C12} len(idx.MessageIndexOffsets) == 0
+        ==> len(selected) == athead(len(selected)) + 1 && selected[len(selected)-1] == idx
+    loop 1 backedge [nothing-added-but-the-chunk-itself] {C04 C12} len(selected) == athead(len(selected)) || (len(selected) == athead(len(selected)) + 1 && selected[len(selected)-1] == idx)
+@*/
+
 /*@ func (*indexedMessageIterator).loadChunk$1
     safety C10
     requires 0 <= i && i < len(unreadMessageIndexes) && 0 <= j && j < len(unreadMessageIndexes)
@@ -455,11 +472,12 @@ package mcap
     touches it
     ensures wfIndexed(it)
     ensures old(queueInWindow(it)) ==> queueInWindow(it)
-    loop 1 backedge [window-match-without-offsets-is-kept] {C04} tokenType == TokenChunkIndex
-        && ((it.end == 0 && it.start == 0) || (idx.MessageStartTime < it.end && idx.MessageEndTime >= it.start)) && len(idx.MessageIndexOffsets) == 0
+    loop 1 backedge [chunk-in-window-is-kept-whatever-was-seen-before] {C04 C12} tokenType == TokenChunkIndex
+        && ((it.end == 0 && it.start == 0) || (idx.MessageStartTime < it.end && idx.MessageEndTime >= it.start))
         ==> len(it.chunkIndexes) == athead(len(it.chunkIndexes)) + 1 && it.chunkIndexes[len(it.chunkIndexes)-1] == idx
     loop 1 backedge [time-pruning-sound] {C04} tokenType == TokenChunkIndex && len(it.chunkIndexes) == athead(len(it.chunkIndexes))
-        ==> !((it.end == 0 && it.start == 0) || (idx.MessageStartTime < it.end && idx.MessageEndTime >= it.start)) || len(idx.MessageIndexOffsets) > 0
+        ==> !((it.end == 0 && it.start == 0) || (idx.MessageStartTime < it.end && idx.MessageEndTime >= it.start))
+    call chunksWithSelectedChannels#1 assert [channel-pruning-only-with-a-topic-filter-and-after-the-whole-summary] {C04 C12 C08} len(it.topics) > 0 && tokenType == TokenFooter
     loop 1 backedge [channel-kept-iff-selected] {C04} tokenType == TokenChannel && (len(it.topics) == 0 || it.topics[channelInfo.Topic]) ==> smGet(it.channels, channelInfo.ID) == channelInfo
     ensures err == nil ==> it.fileSize >= 28 && it.hasReadSummarySection
     ensures err != nil ==> !it.hasReadSummarySection
